@@ -336,6 +336,89 @@ impl VisitMut for Rewrite {
     }
 }
 
+/// a visitor that re-spells every scalar in its default form and touches nothing else
+struct Respell {
+    touched: usize,
+}
+
+impl VisitMut for Respell {
+    fn visit_integer_mut(&mut self, node: &mut Formatted<i64>) {
+        node.fmt();
+        self.touched += 1;
+    }
+    fn visit_string_mut(&mut self, node: &mut Formatted<String>) {
+        node.fmt();
+        self.touched += 1;
+    }
+    fn visit_float_mut(&mut self, node: &mut Formatted<f64>) {
+        node.fmt();
+        self.touched += 1;
+    }
+    fn visit_boolean_mut(&mut self, node: &mut Formatted<bool>) {
+        node.fmt();
+        self.touched += 1;
+    }
+    fn visit_datetime_mut(&mut self, node: &mut Formatted<Datetime>) {
+        node.fmt();
+        self.touched += 1;
+    }
+}
+
+/// all trivia of a document in walk order: what surrounds keys, values and tables, what trails
+/// arrays and the document
+fn all_trivia(doc: &DocumentMut) -> Vec<String> {
+    fn raw(r: Option<&toml_edit::RawString>) -> String {
+        match r {
+            None => "<default>".to_string(),
+            Some(r) => r.as_str().unwrap_or("<in source>").to_string(),
+        }
+    }
+    fn decor(d: &toml_edit::Decor, out: &mut Vec<String>) {
+        out.push(raw(d.prefix()));
+        out.push(raw(d.suffix()));
+    }
+    fn value(v: &Value, out: &mut Vec<String>) {
+        decor(v.decor(), out);
+        match v {
+            Value::Array(a) => {
+                for e in a.iter() {
+                    value(e, out);
+                }
+                out.push(raw(Some(a.trailing())));
+            }
+            Value::InlineTable(t) => {
+                for (k, e) in t.iter() {
+                    if let Some(key) = t.key(k) {
+                        decor(key.leaf_decor(), out);
+                        decor(key.dotted_decor(), out);
+                    }
+                    value(e, out);
+                }
+            }
+            _ => {}
+        }
+    }
+    fn table(t: &Table, out: &mut Vec<String>) {
+        decor(t.decor(), out);
+        for (k, i) in t.iter() {
+            if let Some(key) = t.key(k) {
+                decor(key.leaf_decor(), out);
+                decor(key.dotted_decor(), out);
+            }
+            match i {
+                Item::Value(v) => value(v, out),
+                Item::Table(c) => table(c, out),
+                Item::ArrayOfTables(a) => a.iter().for_each(|c| table(c, out)),
+                Item::None => {}
+            }
+        }
+    }
+    let mut out = Vec::new();
+    table(doc.as_table(), &mut out);
+    out.push(raw(Some(doc.trailing())));
+    out
+}
+
 fn model_rewrite(v: &RVal, kind: u8, n: &mut usize) -> RVal {
     match v {
         RVal::Int(i) if kind == 0 => {
@@ -499,15 +582,23 @@ impl C20 {
             let mut recm = RecMut::default();
             recm.visit_document_mut(&mut doc);
             let before = obs::edit_table_to_r(doc.as_table());
+            // first a visitor that only re-spells scalars: same data, and not one piece of trivia
+            // (comments, blank lines, indentation) may change
+            let trivia_before = all_trivia(&doc);
+            let mut rs = Respell { touched: 0 };
+            rs.visit_document_mut(&mut doc);
+            let trivia_after = all_trivia(&doc);
+            let respelled = obs::edit_table_to_r(doc.as_table());
+            let respell = (rs.touched, trivia_before == trivia_after, before.diff(&respelled, KeyOrder::Exact), trivia_before.iter().zip(trivia_after.iter()).find(|(a, b)| a != b).map(|(a, b)| format!("{a:?} became {b:?}")));
             let kind = rng.below(5) as u8;
             let mut rw = Rewrite { kind, touched: 0 };
             rw.visit_document_mut(&mut doc);
             let after = obs::edit_table_to_r(doc.as_table());
             let printed = doc.to_string();
             let reparsed = DocumentMut::from_str(&printed).map(|d| obs::edit_table_to_r(d.as_table())).map_err(|e| e.to_string());
-            (expected, rec.log, recm.log, before, after, kind, rw.touched, reparsed, printed)
+            (expected, rec.log, recm.log, before, after, kind, rw.touched, reparsed, printed, respell)
         });
-        let (expected, log, logm, before, after, kind, touched, reparsed, printed) = match r {
+        let (expected, log, logm, before, after, kind, touched, reparsed, printed, respell) = match r {
             Ok(x) => x,
             Err((loc, msg)) => {
                 ctx.violation(&format!("panic:{}", crate::short_loc(&loc)), format!("visiting panicked at {loc}: {msg}"));
@@ -545,6 +636,16 @@ impl C20 {
                 }
             }
             ctx.violation(&sig, format!("VisitMut: {}", first_diff(&expected, &logm)));
+        }
+        {
+            let (respelled, trivia_same, data_diff, first) = respell;
+            ctx.add("respelled-scalars", respelled as u64);
+            if let Some(diff) = data_diff {
+                ctx.violation("respelling-changes-data", format!("a visitor calling fmt() on every scalar changed the data: {diff}"));
+            }
+            if !trivia_same {
+                ctx.violation("respelling-changes-trivia", format!("a visitor calling fmt() on every scalar changed text around them: {}", first.unwrap_or_else(|| "the number of pieces differs".into())));
+            }
         }
         let mut n = 0;
         let want = model_rewrite(&before, kind, &mut n);
